@@ -35,8 +35,10 @@
 (*      reported as expired or as missing/invalid (a verifier checking the *)
 (*      HMAC first is as good); "at" the expiry second the statement       *)
 (*      ("before") and the two implementations differ, so rel = near       *)
-(*      allows both outcomes.  keepstore's wrapper is judged only on       *)
-(*      accept/refuse (VerifyKs): which refusal it reports is drift.       *)
+(*      allows both outcomes; a field that is merely one hex digit too     *)
+(*      short/long with a past expiry may also be called expired.          *)
+(*      keepstore's wrapper is judged the same way (VerifyKs), its two     *)
+(*      refusals being "expired" and "denied".                             *)
 (*  (c) "the signature is the lowercase hex HMAC-SHA1 under the key of     *)
 (*      hash@token@expiry-hex@ttl-hex exactly as the API server computes   *)
 (*      it"                SignLoc: the output carries a signature hint    *)
@@ -57,7 +59,9 @@
 (***************************************************************************)
 EXTENDS Naturals, Sequences
 
-VARIABLES inp       \* [wf |-> BOOLEAN, same |-> BOOLEAN] classification of the case under test
+VARIABLES inp       \* [wf |-> BOOLEAN, same |-> BOOLEAN, lenonly |-> BOOLEAN] classification of the case
+                    \* under test; lenonly: not well-formed ONLY because the signature or expiry field
+                    \* has one hex digit too few or too many (a verifier may still read an expiry)
 
 cvars == <<inp>>
 
@@ -72,10 +76,11 @@ Allowed(i, rel) ==
     THEN (IF rel = "past" THEN {"expired"}
           ELSE IF rel = "future" THEN {"ok"}
           ELSE {"ok", "expired"})
-    ELSE IF ~i.wf THEN Fail                       \* no well-formed signature: cannot be "expired"
+    ELSE IF ~i.wf THEN (IF i.lenonly /\ rel # "future" THEN AnyFailure   \* wrong field length, (possibly) expired
+                        ELSE Fail)                \* no well-formed signature: cannot be "expired"
     ELSE (IF rel = "future" THEN Fail ELSE AnyFailure)   \* perturbed; if (possibly) expired, any failure
 
-CInit(wf, same) == inp = [wf |-> wf, same |-> same]
+CInit(wf, same, lenonly) == inp = [wf |-> wf, same |-> same, lenonly |-> lenonly]
 
 (* VerifySignature (any of the three entry points) returned res. *)
 Verify(rel, res) == /\ rel \in Rels
@@ -84,11 +89,16 @@ Verify(rel, res) == /\ rel \in Rels
 
 Success(status) == status >= 200 /\ status < 300
 
-(* keepstore's own VerifySignature wrapper: judged on accept / refuse only. *)
-VerifyKs(rel, ok) == /\ rel \in Rels
-                     /\ ok => "ok" \in Allowed(inp, rel)
-                     /\ ~ok => Allowed(inp, rel) # {"ok"}
-                     /\ UNCHANGED inp
+(* keepstore's own VerifySignature wrapper returned res: "ok", "expired"   *)
+(* (its ExpiredError, recognised by errors.Is or by the HTTP status the    *)
+(* error carries) or "denied" (any other refusal).  The statement's "a     *)
+(* well-formed signature whose expiry has passed is reported as expired,   *)
+(* everything else as missing or invalid" is judged here too: an unchanged *)
+(* but expired locator must be "expired", a perturbed unexpired one must   *)
+(* not be.                                                                 *)
+VerifyKs(rel, res) == /\ rel \in Rels
+                      /\ res \in Allowed(inp, rel)
+                      /\ UNCHANGED inp
 
 (* keepstore answered a GET of the presented locator (blob signing on). *)
 KsGet(rel, status) == /\ rel \in Rels
@@ -125,5 +135,5 @@ SignTok(in, out, sigok) == /\ NonA(out) = NonA(in)              \* other hints u
 SignMan(wssame, othersame, hashsame) == /\ wssame /\ othersame /\ hashsame
                                         /\ UNCHANGED inp
 
-TypeOK == inp.wf \in BOOLEAN /\ inp.same \in BOOLEAN
+TypeOK == inp.wf \in BOOLEAN /\ inp.same \in BOOLEAN /\ inp.lenonly \in BOOLEAN
 =============================================================================
